@@ -193,3 +193,96 @@ Example C18_engine_instance :
      TsRes 0%N None;
      TsClock 1000 (Some 1001000)].
 Proof. vm_compute. reflexivity. Qed.
+
+(* ---- agreement of the hand-written models with the tables regenerated from the source on every run
+   (tools/gen/gen_master_tables.py -> gen/MasterTables.v; lemmas, interpreters and observers in
+   Master/TablesAgree.v, module MTab).  `.._is_table`: the model's function IS the interpreter run over the
+   generated table; `.._observed`: the order the model serves things in, observed on enumerated states. *)
+From Coq Require Import String List.
+From Dnp3V Require Import Base.Bytes Master.Backoff Master.Assoc Master.Sched Master.MParse Master.Command Master.MTask
+  Master.TimeSync gen.MasterTables Master.TablesAgree.
+Import MTab.
+Local Open Scope string_scope.
+Local Open Scope list_scope.
+Local Open Scope N_scope.
+
+Theorem C18_tables_states :
+  map tstate_name [TsSMeasure 0; TsSWriteAbs 0; TsSRecord 0; TsSWriteLast 0] = gm_timesync_states /\
+  map proc_name [TsLan; TsNonLan; TsDirect] = map fst gm_timesync_start.
+Proof. exact MTab.timesync_states_agree. Qed.
+Print Assumptions C18_tables_states.
+
+(* TimeSyncProcedure::get_start_state + TimeSyncTask::start: the first state, and every first state
+   samples the master's clock (no clock: the task does not start) *)
+Theorem C18_tables_start : forall p c now,
+  option_map tstate_name (m_start p (Some c) now) = assoc_str (proc_name p) gm_timesync_start /\
+  m_start p None now = None /\
+  match assoc_str (proc_name p) gm_timesync_start with
+  | Some s0 => match assoc_str s0 gm_timesync_clock with
+               | Some GmClockRequired | Some GmClockIfUnset => True
+               | _ => False
+               end
+  | None => False
+  end.
+Proof. exact MTab.timesync_start_agrees. Qed.
+Print Assumptions C18_tables_start.
+
+Theorem C18_tables_request : forall seq s,
+  request_from_table seq (tstate_name s) (tstate_time s) = Some (ts_enc_req seq (ts_req_of s)).
+Proof. exact MTab.timesync_request_agrees. Qed.
+Print Assumptions C18_tables_request.
+
+(* TimeSyncTask::handle: the state after an accepted response *)
+Theorem C18_tables_next : forall s clk now need o,
+  match m_handle s clk now need o with
+  | TsNext s' => assoc_str (tstate_name s) gm_timesync_next = Some (Some (tstate_name s'))
+  | TsDone => assoc_str (tstate_name s) gm_timesync_next = Some None
+  | TsFail _ => True
+  end.
+Proof. exact MTab.timesync_next_agrees. Qed.
+Print Assumptions C18_tables_next.
+
+Theorem C18_tables_procedures :
+  map model_procedure [TsLan; TsNonLan; TsDirect] = map table_procedure ["Lan"; "NonLan"; "DirectWriteAbsTime"].
+Proof. exact MTab.timesync_procedures_agree. Qed.
+Print Assumptions C18_tables_procedures.
+
+Theorem C18_tables_checks :
+  forallb (fun s => forallb (fun clk => forallb (fun now => forallb (fun need => forallb (fun o =>
+     match table_failure s clk now need o, model_failure s clk now need o with
+     | Some (Some a), Some b => String.eqb a b
+     | Some None, None => true
+     | _, _ => false
+     end)
+     [TsONone; TsODelay 5; TsOOther]) [false; true]) [3%Z; 100%Z]) [None; Some 100%Z; Some 281474976710655%Z])
+     [TsSMeasure 0; TsSWriteAbs 7; TsSRecord 7; TsSWriteLast 7] = true.
+Proof. exact MTab.timesync_checks_agree. Qed.
+Print Assumptions C18_tables_checks.
+
+(* the constants: Timestamp::MAX_VALUE, the halving of the round trip *)
+Theorem C18_tables_constants : forall v d start c now need dl,
+  ts_max = gm_timestamp_max /\ ms_ts_max = gm_timestamp_max /\ (gm_timestamp_max = 2 ^ 48 - 1)%Z /\
+  ts_checked_add v d = (if (d >? gm_timestamp_max - v)%Z then None else Some (v + d)%Z) /\
+  ((dl <= now - start)%Z ->
+   m_handle (TsSMeasure start) (Some c) now need (TsODelay dl)
+   = match ts_checked_add c ((now - start - dl) / gm_propagation_divisor) with
+     | Some ts => TsNext (TsSWriteAbs ts)
+     | None => TsFail TsEOverflow
+     end).
+Proof. exact MTab.timesync_constants_agree. Qed.
+Print Assumptions C18_tables_constants.
+
+Theorem C18_tables_validation_is_table : forall cfg s t ctl iin1 iin2 objs,
+  tm_cur (tss_m s) = Some t -> N.testbit iin1 7 = false -> N.testbit ctl 4 = false ->
+  validate_dispatch gm_validate_non_read_response (ts_check ctl iin2 t) (s, []) (s, [])
+    (fun e => option_map (fun x => m_finish cfg s (mt_token t) (Some x)) (ts_err_of e))
+    (ts_accept cfg s t iin1 objs)
+  = Some (m_deliver cfg s (ctl :: 129 :: iin1 :: iin2 :: objs)).
+Proof. exact MTab.timesync_validation_is_table. Qed.
+Print Assumptions C18_tables_validation_is_table.
+
+Example C18_tables_instance :
+  table_procedure "Lan" = [(24, []); (2, [50; 3; 7; 1])]%N /\
+  table_procedure "NonLan" = [(23, []); (2, [50; 1; 7; 1])]%N /\
+  table_procedure "DirectWriteAbsTime" = [(2, [50; 1; 7; 1])]%N.
+Proof. repeat split. Qed.
